@@ -271,7 +271,8 @@ func c13Expr(r *rng, depth int) string {
 	case 4:
 		return pick(r, []string{"'q'", "\"}\"", "'{'", "'%}'", "'a\\n'", "''", "'\\\\'"})
 	case 5:
-		return pick(r, []string{"[1,2]", "[x, 'k']", "null", "1.5", "{'k': 1}", "true"})
+		// `v` is ONE array object of the prelude: several holes of a template may show the same container
+		return pick(r, []string{"[1,2]", "[x, 'k']", "null", "1.5", "{'k': 1}", "true", "v", "v", "[v, 0]", "[v, v]"})
 	case 6:
 		return pick(r, []string{"x", "y", "z"}) + " = " + fmt.Sprint(r.intn(100))
 	case 7:
@@ -308,6 +309,10 @@ func c13Join(a, sep, b string) string {
 // statement block; void = leaves no value
 func c13Block(r *rng, depth int) (string, bool) {
 	sep := pick(r, []string{"; ", "\n", " ;\n "})
+	if r.chance(1, 8) {
+		// holes that execute nothing and leave nothing: only separators / only a comment
+		return pick(r, []string{";", "; ;", " ; ", "// c\n", ";// c\n"}), true
+	}
 	switch r.intn(7) {
 	case 0:
 		return "if " + pick(r, []string{"1", "0", "x", "u"}) + " { " + c13Expr(r, 0) + " }", true
